@@ -28,6 +28,12 @@ CHECKS = {
     text="Generated metamorphic pairs (bare==true, false==omitted, option order, variant==option shorthand) over generated fn/mod/trait items and duplicate-free option sets, compared by exact token equality, plus the documented acceptance matrix (each option accepted on its documented targets, rejected elsewhere). Exploration over ~100k pairs quick / 2M thorough.",
     note="The crate-feature half of the statement is modelled in E1 by the `_unimock` macro variants (what the facade selects); the facade's own feature->variant mapping is observed through compiled clients in C10. Don't-cares: `no_deps` on a module, `debug`.",
     design="§2 C17"),
+ "C03": dict(
+    technique="property-based testing of compile verdicts: generated signatures over the supported class, compiled by rustc with model-derived fn-pointer coercion and call witnesses; plain-twin guard; fix-point attribution",
+    engine="E2",
+    text="Signatures generated from a grammar of the supported class (deps forms, parameter kinds, type/lifetime/const generics with inline and where bounds and lifetime predicates, sync/async, unsafe/extern, borrowed and generic returns, option sets, both feature settings) are expanded and type/borrow-checked by rustc. Each program coerces the fn item and the trait method to one fn-pointer type computed from the generator's model and calls the method from a witness fn with the modelled parameter and return types (exact Future::Output and is_send for async). 2x1500 quick / 2x40000 thorough; failures are shrunk on the tape.",
+    note="`-> impl Trait` returns and `const fn` are outside the stated class; safe->unsafe fn-pointer coercion means a lost `unsafe` on the method is not visible here; the plain twin must compile or the case is discarded (generator fault, run inconclusive above 1%).",
+    design="§2 C03"),
  "C08": dict(
     technique="property-based testing: generated modules with decoy items, generator-side ground truth for the method list, syn-parsed trait of the expansion as observation",
     engine="E1",
